@@ -531,6 +531,7 @@ struct Gen {
    }
    int chr() {
       if (wild && rng.chance(1, 6)) return static_cast<int>(rng.below(256));
+      if (rng.chance(1, 10)) return 0;                       // NUL is an ordinary character (sanitised for C-string kinds)
       return 'a' + static_cast<int>(rng.below(4));
    }
    std::string text(size_t maxlen) {
@@ -563,9 +564,9 @@ struct Gen {
          if (sk == "ilist" && a.src.size() > 7) a.src.resize(7);
       } else if (needle) a.src = text(std::min<size_t>(maxsrc, 4));
       else a.src = text(maxsrc);
-      if (!wild) for (auto& ch : a.src) if (ch == 0) ch = 'a';
+      // C-string source kinds stay NUL-free in the documented domain (A.3); all other kinds may carry NUL characters
+      if (!wild && (sk == "cstr" || sk == "cstr_cnt")) for (auto& ch : a.src) if (ch == 0) ch = 'a';
       a.ch = (needle && len > 0 && rng.chance(1, 2)) ? static_cast<unsigned char>(cur[rng.below(len)]) : chr();
-      if (!wild && a.ch == 0) a.ch = 'b';
       size_t slen = (sk == "selfit") ? len : a.src.size();
       if (sk.compare(0, 3, "fs2") == 0) slen = std::min(slen, S2);            // the other FixedString cuts its source off
       else if (sk.compare(0, 2, "fs") == 0) slen = std::min(slen, L);
